@@ -108,12 +108,12 @@ Print Assumptions c04_join_injective_general_refuted.
    configured key, the timestamp is within the tolerance and the HMAC over (timestamp, method,
    effective path, effective query, body hash) matches -- and, for a request announcing an encrypted
    body, that body decrypts (otherwise cryptohandler answers 400) *)
-Theorem c04_sig_strict_iff : forall decryptors rsa_dec b64_dec hmac_b64 sha_hex url_parse body_dec_ok tol now r,
+Theorem c04_sig_strict_iff : forall decryptors rsa_dec b64_dec hmac_b64 sha_hex url_parse body_dec tol now r,
   0 <= tol -> 0 <= now -> now + 2 * tol < 2^63 -> method_checked r = true ->
-  (s_ran (content_security_gate decryptors rsa_dec b64_dec hmac_b64 sha_hex url_parse body_dec_ok true tol now r) = true <->
+  (s_ran (content_security_gate decryptors rsa_dec b64_dec hmac_b64 sha_hex url_parse body_dec true tol now r) = true <->
    exists h, parse_content_security decryptors rsa_dec b64_dec r = inl h /\
              sig_accept hmac_b64 sha_hex tol now (q_of url_parse h r) = true /\
-             ((0 <? r_clen r) && (h_ctype h =? encryption_type) = true -> body_dec_ok (h_key h) r = true)).
+             ((0 <? r_clen r) && (h_ctype h =? encryption_type) = true -> body_dec (h_key h) r = DecOk)).
 Proof. exact sig_strict_spec. Qed.
 Print Assumptions c04_sig_strict_iff.
 
@@ -125,10 +125,29 @@ Theorem c04_sig_sound : forall hmac_b64 sha_hex url_parse tol now r h,
 Proof. exact verify_sound. Qed.
 Print Assumptions c04_sig_sound.
 
+(* the framing of the body (declared Content-Length, chunked = -1, declared 0) is not an input of the
+   signature verification: the hash is over the body bytes; the Spec's sig_accept has no framing input at all *)
+Theorem c04_body_hash_framing_independent : forall hmac_b64 sha_hex url_parse tol now r h clen,
+  verify_signature hmac_b64 sha_hex url_parse tol now (mkr (r_method r) (r_path r) (r_query r) (r_xuri r) (r_cs r) (r_body r) clen) h =
+  verify_signature hmac_b64 sha_hex url_parse tol now r h.
+Proof. exact verify_framing. Qed.
+Print Assumptions c04_body_hash_framing_independent.
+
+(* the gate panics only inside cryptohandler's body decryption of a request whose signature verified;
+   if decryptBody never panics (body_dec never DecPanic) the gate never does *)
+Theorem c04_gate_panic_iff : forall decryptors rsa_dec b64_dec hmac_b64 sha_hex url_parse body_dec strict tol now r,
+  s_panic (content_security_gate decryptors rsa_dec b64_dec hmac_b64 sha_hex url_parse body_dec strict tol now r) = true <->
+  method_checked r = true /\
+  exists h, parse_content_security decryptors rsa_dec b64_dec r = inl h /\
+            verify_signature hmac_b64 sha_hex url_parse tol now r h = code_pass /\
+            (0 <? r_clen r) && (h_ctype h =? encryption_type) = true /\ body_dec (h_key h) r = DecPanic.
+Proof. exact gate_panic. Qed.
+Print Assumptions c04_gate_panic_iff.
+
 (* under HMAC / SHA-256 injectivity: altering exactly one of timestamp, method, effective path,
    effective query, body of an accepted request (same key, same signature) yields 403 and the handler
    does not run -- provided the method is still a guarded one (see c04_other_methods_pass) *)
-Theorem c04_tamper_rejected : forall decryptors rsa_dec b64_dec hmac_b64 sha_hex url_parse body_dec_ok,
+Theorem c04_tamper_rejected : forall decryptors rsa_dec b64_dec hmac_b64 sha_hex url_parse body_dec,
   (forall k c1 c2 : bytes, hmac_b64 k c1 = hmac_b64 k c2 -> c1 = c2) ->
   (forall b1 b2 : bytes, sha_hex b1 = sha_hex b2 -> b1 = b2) ->
   forall tol now r r' h h',
@@ -137,47 +156,47 @@ Theorem c04_tamper_rejected : forall decryptors rsa_dec b64_dec hmac_b64 sha_hex
   parse_content_security decryptors rsa_dec b64_dec r' = inl h' ->
   tampered url_parse h h' r r' ->
   method_checked r' = true ->
-  let o := content_security_gate decryptors rsa_dec b64_dec hmac_b64 sha_hex url_parse body_dec_ok true tol now r' in
+  let o := content_security_gate decryptors rsa_dec b64_dec hmac_b64 sha_hex url_parse body_dec true tol now r' in
   s_status o = 403 /\ s_ran o = false.
 Proof. exact tamper_rejected. Qed.
 Print Assumptions c04_tamper_rejected.
 
 (* strict: whatever is not (header parses and signature verifies) is a 403 without handler;
    the Signature response header names the reason *)
-Theorem c04_strict_403 : forall decryptors rsa_dec b64_dec hmac_b64 sha_hex url_parse body_dec_ok tol now r,
+Theorem c04_strict_403 : forall decryptors rsa_dec b64_dec hmac_b64 sha_hex url_parse body_dec tol now r,
   method_checked r = true ->
   (forall h, parse_content_security decryptors rsa_dec b64_dec r = inl h ->
              verify_signature hmac_b64 sha_hex url_parse tol now r h <> code_pass) ->
-  let o := content_security_gate decryptors rsa_dec b64_dec hmac_b64 sha_hex url_parse body_dec_ok true tol now r in
+  let o := content_security_gate decryptors rsa_dec b64_dec hmac_b64 sha_hex url_parse body_dec true tol now r in
   s_status o = 403 /\ s_ran o = false.
 Proof. exact strict_403. Qed.
 Print Assumptions c04_strict_403.
 
-Theorem c04_strict_403_header : forall decryptors rsa_dec b64_dec hmac_b64 sha_hex url_parse body_dec_ok tol now r,
+Theorem c04_strict_403_header : forall decryptors rsa_dec b64_dec hmac_b64 sha_hex url_parse body_dec tol now r,
   method_checked r = true ->
-  let o := content_security_gate decryptors rsa_dec b64_dec hmac_b64 sha_hex url_parse body_dec_ok true tol now r in
+  let o := content_security_gate decryptors rsa_dec b64_dec hmac_b64 sha_hex url_parse body_dec true tol now r in
   match parse_content_security decryptors rsa_dec b64_dec r with
-  | inr _ => o = mks 403 false SigInvalid
+  | inr _ => o = mks 403 false SigInvalid false
   | inl h =>
-      (verify_signature hmac_b64 sha_hex url_parse tol now r h = code_invalid_header -> o = mks 403 false SigInvalid) /\
-      (verify_signature hmac_b64 sha_hex url_parse tol now r h = code_wrong_time -> o = mks 403 false SigWrongTime) /\
-      (verify_signature hmac_b64 sha_hex url_parse tol now r h = code_invalid_token -> o = mks 403 false SigNone)
+      (verify_signature hmac_b64 sha_hex url_parse tol now r h = code_invalid_header -> o = mks 403 false SigInvalid false) /\
+      (verify_signature hmac_b64 sha_hex url_parse tol now r h = code_wrong_time -> o = mks 403 false SigWrongTime false) /\
+      (verify_signature hmac_b64 sha_hex url_parse tol now r h = code_invalid_token -> o = mks 403 false SigNone false)
   end.
 Proof. exact strict_403_header. Qed.
 Print Assumptions c04_strict_403_header.
 
 (* non-strict: a failed verification passes through to the handler *)
-Theorem c04_nonstrict_pass : forall decryptors rsa_dec b64_dec hmac_b64 sha_hex url_parse body_dec_ok tol now r,
+Theorem c04_nonstrict_pass : forall decryptors rsa_dec b64_dec hmac_b64 sha_hex url_parse body_dec tol now r,
   (forall h, parse_content_security decryptors rsa_dec b64_dec r = inl h ->
              verify_signature hmac_b64 sha_hex url_parse tol now r h <> code_pass) ->
-  content_security_gate decryptors rsa_dec b64_dec hmac_b64 sha_hex url_parse body_dec_ok false tol now r = ran_ok.
+  content_security_gate decryptors rsa_dec b64_dec hmac_b64 sha_hex url_parse body_dec false tol now r = ran_ok.
 Proof. exact nonstrict_pass. Qed.
 Print Assumptions c04_nonstrict_pass.
 
 (* methods other than DELETE/GET/POST/PUT are not looked at *)
-Theorem c04_other_methods_pass : forall decryptors rsa_dec b64_dec hmac_b64 sha_hex url_parse body_dec_ok strict tol now r,
+Theorem c04_other_methods_pass : forall decryptors rsa_dec b64_dec hmac_b64 sha_hex url_parse body_dec strict tol now r,
   existsb (bytes_eqb (r_method r)) (map bytes_of_string ["DELETE"; "GET"; "POST"; "PUT"]%string) = false ->
-  content_security_gate decryptors rsa_dec b64_dec hmac_b64 sha_hex url_parse body_dec_ok strict tol now r = ran_ok.
+  content_security_gate decryptors rsa_dec b64_dec hmac_b64 sha_hex url_parse body_dec strict tol now r = ran_ok.
 Proof. exact other_methods_pass. Qed.
 Print Assumptions c04_other_methods_pass.
 
